@@ -74,6 +74,8 @@ func (e *ExecutionConfig) MarshalJSON() ([]byte, error) {
 	var minValue string
 	if e.MinValue != nil {
 		minValue = fmt.Sprintf("%v", e.MinValue.Div(weiPerETH))
+		// Div() rounds to 16 decimal places; shifting the decimal point keeps wei granularity.
+		minValue = e.MinValue.Shift(-18).String()
 	}
 
 	return json.Marshal(&executionConfigJSON{
